@@ -2,6 +2,7 @@
 LEAN_MODULES = ["Sif.Props.C03"]
 EXTRACT = []
 FAMILIES = [
+    {"name": "ammdir", "family": "ammdir", "driver": "drv_amm", "n_quick": 1, "n_thorough": 1},
     {"name": "calc", "family": "calc", "n_quick": 60000, "n_thorough": 600000, "seeds_thorough": 3},
     {"name": "amm", "family": "amm", "driver": "drv_amm", "n_quick": 2500, "n_thorough": 20000, "seeds_thorough": 4},
     {"name": "ammrt", "family": "ammrt", "driver": "drv_amm", "n_quick": 2500, "n_thorough": 20000, "seeds_thorough": 3},
